@@ -60,7 +60,8 @@ def node_index(root):
 def soundness(el, node, idx, errs, path=()):
     names = declared_children(node)
     for c in el.children.list:
-        if c.name not in names:
+        if c.name not in names and not (c.classname == 'Segment' and c.name[:1] == 'Z'):
+            # (locally defined Z segments are declared nowhere and may stand anywhere)
             errs.append('%s under %s' % (c.name, node.name))
         if c.classname == 'Group':
             sub = [x for x in node.children if x.name == c.name and x.kind == 'GRP']
@@ -81,7 +82,7 @@ def check_instance(parser, v, name, node, lines, text, mode, rec):
     case = {'version': v, 'structure': name, 'mode': mode, 'text': text,
             'paths': [[l.seg, [list(p) for p in l.path]] for l in lines]}
     sig = (v, name, mode, tuple((l.seg, l.path) for l in lines))
-    unamb = structref.unambiguous(v, node, lines)
+    unamb = structref.unambiguous(v, node, lines) and mode != 'z-inside'
     try:
         m = parser.parse_message(text, find_groups=True)
         m2 = parser.parse_message(text, find_groups=True)
@@ -115,6 +116,22 @@ def check_instance(parser, v, name, node, lines, text, mode, rec):
     if structref.tree_of(m2) != got:
         rec.violation('nondeterministic-tree', case, {}, row=row)
         return
+    # the same text assigned to a message created without a name (it becomes that message) and to one created with it
+    from hl7apy import core
+    for how, mk in (('unnamed', lambda: core.Message(version=v, encoding_chars=gen.full_ec(er7ref.STD))),
+                    ('named', lambda: core.Message(name, version=v, encoding_chars=gen.full_ec(er7ref.STD)))):
+        try:
+            m3 = mk()
+            m3.value = text
+            t3 = structref.tree_of(m3)
+        except Exception as e:
+            rec.violation('assigned-text-raised:%s:%s' % (how, type(e).__name__), case, {'exc': repr(e)[:200]}, row=row)
+            return
+        rec.count('assigned_text_trees_compared')
+        if t3 != got:
+            d = [(a, b) for a, b in zip(got, t3) if a != b][:2]
+            rec.violation('tree-differs-when-text-is-assigned:%s' % how, case, {'first_diff': str(d)[:300]}, row=row)
+            return
     rec.count('soundness_flatten_equivalence_checks')
     if unamb:
         want = list(lines)
@@ -181,6 +198,15 @@ def run_shard(spec, rec):
                 text = '\r'.join(out)
                 check_instance(parser, v, name, node, lines, text, mode, rec)
                 rec.seen('modes', mode)
+                if mode in ('all', 'random') and len(out) > 2:
+                    # the same instance with locally defined (Z) segments between its lines, also inside groups and right
+                    # before a segment of an outer level: every line is kept, in order, under both settings
+                    zout = list(out)
+                    for _ in range(rng.randint(1, 3)):
+                        zout.insert(rng.randint(1, len(zout)), 'Z%s%s|%s' % (rng.choice('ABZ19'), rng.choice('ABZ19'),
+                                                                              toks.next()))
+                    check_instance(parser, v, name, node, lines, '\r'.join(zout), 'z-inside', rec)
+                    rec.seen('modes', 'z-inside')
         if rec.counters.get('instances', 0) <= 4:
             rec.sample({'version': v, 'structure': name, 'text': text[:300]})
 
